@@ -111,6 +111,40 @@ CHECKS = {
              "exchanged roles; float segments of fixed-seed tables in f64 and f32: box containment and common division point.",
         ref="DESIGN.md 5 (C16)",
         technique="bounded-exhaustive enumeration of segment pairs on the real intersection step against an exact integer reference"),
+    "C11": dict(
+        text="Explicit-state search over result representations: a state is a multipolygon exactly as the implementation returned it "
+             "(no normalisation), keyed by its exact coordinate list and labelled with its model mask; from both encodings of every face "
+             "set, op(X, Y) is executed for every ordered pair of known states and every operation, judged against the bitmask model and "
+             "the structural oracle, and new results join the state set until a fixpoint is reached (G22, G32 quick; G23, T22, O21, O12 "
+             "thorough; G33 to depth 2) - covering chained operations of every length incl. re-used operands. Float clause: every "
+             "triangle triple of the table with an independent third operand x 16 operation pairs x both nesting sides.",
+        ref="DESIGN.md 5 (C11)",
+        technique="explicit-state BFS to fixpoint over real results with canonical-state deduplication, checked against a bitmask model"),
+    "C12": dict(
+        text="(histories) every sequence of <= 3 calls over a 12-call alphabet (incl. two calls that unwind and one f32 call) under three "
+             "thread placements, each result compared bit for bit with the same call made alone in a fresh process; (schedules) stateless "
+             "exploration of every schedule with <= 2 preemptions (thorough: 3) of 2-3 real threads each executing one real call on shared "
+             "operands, scheduling points = the library's hook points, default-first DFS as in iterative context bounding, each thread's "
+             "result compared with its sequential reference; operands compared bit for bit after every call; a source audit of statics "
+             "is recorded as context.",
+        ref="DESIGN.md 5 (C12)",
+        technique="stateless schedule exploration with a preemption bound under a baton scheduler at hook points; exhaustive short call histories x thread placements"),
+    "C17": dict(
+        text="Explicit-state search over splay-tree shapes: state = operation history, canonical key = Debug rendering of the tree (lookups "
+             "splay, so they are transitions); every operation of SplayTree and SplaySet over 6 keys (7 thorough), 2 values and "
+             "out-of-range probes is executed on a fresh replay of the real tree and compared with BTreeMap/BTreeSet, breadth-first to the "
+             "fixpoint (17 845 shapes for 6 keys); in every state: consuming iteration under every front/back pattern and every partial "
+             "consumption then drop, a live-instance balance, and reference stability under every sequence of <= 2 (3) further lookups.",
+        ref="DESIGN.md 5 (C17)",
+        technique="explicit-state BFS to fixpoint over the real data structure against a BTreeMap reference model"),
+    "C18": dict(
+        text="Stack-span probe (key type whose Drop and comparator record a stack address) on chains of 8..16384 keys for 6 teardown paths "
+             "and 6 operations x 3 insertion orders: the span must not grow with the height (a recursive teardown is decided at height 16, "
+             "no crash needed); all tree shapes of the C17 search torn down by all paths; a matrix of child processes (4 insertion orders "
+             "x 10^5 / 3*10^6 keys x 8 actions x 8 MiB main stack / 2 MiB thread) and Boolean operations whose sweep stops early with "
+             "~5*10^5 segments in the status structure, judged by exit status.",
+        ref="DESIGN.md 5 (C18)",
+        technique="exhaustive small-scope stack-span probing of the real tree plus a scenario matrix in child processes"),
 }
 
 NOT_YET = "check under construction in this round (designed in DESIGN.md section 5, not yet registered)"
